@@ -384,7 +384,29 @@ func (r *Rec) Rapid(t *testing.T, name string, checks int, prop func(*rapid.T)) 
 				}
 			}
 		}()
-		rapid.Check(tb, prop)
+		// rapid checks its shrink deadline only between passes; one pass can
+		// make dozens of attempts, so a property whose failing cases are slow
+		// (a 5 s "does not return" verdict, a watchdog) would shrink for many
+		// minutes. Once the budget is used up, further attempts return at
+		// once (as "does not fail"), which ends the shrinking; the failure
+		// kept is the last one that was actually observed.
+		budget := 25 * time.Second
+		if Thorough() {
+			budget = 3 * time.Minute
+		}
+		var firstFail time.Time
+		rapid.Check(tb, func(t *rapid.T) {
+			if !firstFail.IsZero() && time.Since(firstFail) > budget {
+				return
+			}
+			n := r.nFailures()
+			defer func() {
+				if firstFail.IsZero() && r.nFailures() > n {
+					firstFail = time.Now()
+				}
+			}()
+			prop(t)
+		})
 	}()
 	run := RapidRun{Name: name, Requested: checks, Seed: seed, Failed: tb.failed, Seconds: time.Since(start).Seconds()}
 	for _, l := range tb.logs {
